@@ -63,6 +63,7 @@ def dispatch (ts : List J) : Verdict :=
     | _ => none
   match crashed, ins with
   | some s, .atom op :: _ =>
+    if s.startsWith "panic:the_library_wrote_past" then .fail "caller-storage" s!"{s.drop 6}" else
     if panicAware.contains op then dispatchOp ins outs else .fail "panic" s!"real code did not return: {s}"
   | _, _ => dispatchOp ins outs
 
